@@ -12,9 +12,10 @@ RULES = {
     'R1': 'value chain timerlist_msec_duration_to_expire -> qb_loop_timer_msec_duration_to_expire -> ms_timeout -> driver poll -> epoll_wait: at every narrowing conversion the operand range is within [0, INT32_MAX] or the -1 "no timer" sentinel',
     'R2': 'every definition of the poll timeout in qb_loop_run is a finite constant >= 0, the timer-derived call, or -1 only under timer_source == NULL',
     'R3': 'timerlist_expire compares expire_time with a clock value read in the same call (< or <=), takes the heap top, stops at the first unexpired entry; add_duration stores now + duration; ns->ms divisor is 10^6',
+    'R5': 'the timer heap stays a min-heap on expire_time: index arithmetic (2i+1, 2i+2, (i-1)/2), entry comparison on expire_time, add sifts up, delete repairs in both directions depending on how the moved entry compares with the removed one',
     'R4': 'expire_time_get / expire_time_remaining return non-zero only when the handle check passed and state == ACTIVE; is_running is expire_time_get > 0',
 }
-FLOORS = {'R1': 5, 'R2': 4, 'R3': 6, 'R4': 5}
+FLOORS = {'R1': 5, 'R2': 4, 'R3': 6, 'R4': 5, 'R5': 9}
 
 I32_MAX = 2**31 - 1
 
@@ -24,6 +25,7 @@ def run(ctx):
     r2(ctx)
     r3(ctx)
     r4(ctx)
+    r5(ctx)
 
 
 def _int(prog, ty):
@@ -268,3 +270,77 @@ def r4(ctx):
     ok = bool(outs) and all(th.uncut_path(ev, chk) is None for ev in outs)
     ctx.check('R4', 'handle-check-compared', ok, outs[0] if outs else th, 'the timer is handed out only after timer->check == handle check',
               '_timer_from_handle_ hands out a slot without comparing the check')
+
+
+def r5(ctx):
+    prog = ctx.prog
+    for (nm, want) in (('timerlist_heap_index_left', '((2 * index) + 1)'), ('timerlist_heap_index_right', '((2 * index) + 2)'),
+                       ('timerlist_heap_index_parent', '((index - 1) / 2)')):
+        f = prog.fn(nm)
+        rets = f.returns()
+        got = estr(rets[0].e).replace(f.params[0]['n'], 'index') if rets else None
+        ctx.check('R5', 'index:%s' % nm, len(rets) == 1 and got == want, f, '%s = %s' % (nm, want), '%s computes %s' % (nm, got))
+    c = prog.fn('timerlist_entry_cmp')
+    t1, t2 = c.params[0]['n'], c.params[1]['n']
+    ok = True
+    seen = set()
+    for r in c.returns():
+        v = cval(unwrap(r.e))
+        g = {(a.ls, a.op, a.rs) for (a, _e) in c.guards(r)}
+        e1, e2 = '%s->expire_time' % t1, '%s->expire_time' % t2
+        if v == 0:
+            ok = ok and (e1, '==', e2) in g
+        elif v is not None and v < 0:
+            ok = ok and (e1, '<', e2) in g
+        elif v is not None and v > 0:
+            ok = ok and (e1, '>=', e2) in g and (e1, '!=', e2) in g
+        else:
+            ok = False
+        seen.add(0 if v == 0 else (-1 if (v or 0) < 0 else 1))
+    ty = prog.record('timerlist_timer')
+    ety = [fl['ty'] for fl in ty['fields'] if fl['n'] == 'expire_time'][0]
+    ctx.check('R5', 'entry-cmp-orders-by-expire_time', ok and seen == {-1, 0, 1} and prog.type_info(ety).get('signed') is False, c,
+              'timerlist_entry_cmp is the unsigned order of expire_time', 'timerlist_entry_cmp is not the plain unsigned order of expire_time')
+    d = prog.fn('timerlist_heap_delete')
+    ups = list(d.calls('timerlist_heap_sift_up'))
+    downs = list(d.calls('timerlist_heap_sift_down'))
+    cmpst = [st for st in d.events('STORE') if st.rhs is not None and callee_of(unwrap(st.rhs)) == 'timerlist_entry_cmp']
+    ok_cmp = len(cmpst) == 1
+    cv_ = estr(cmpst[0].lhs) if cmpst else None
+    if ok_cmp:
+        a0, a1 = unwrap(cmpst[0].rhs)['args']
+        # compares the moved (last) entry with the removed one
+        ok_cmp = estr(a1) == d.params[1]['n'] and derives(d, a0, cmpst[0], lambda x: callee_of(x) == 'timerlist_heap_entry_get')
+    ctx.check('R5', 'delete:compares-moved-with-removed', ok_cmp, cmpst[0] if cmpst else d, 'the moved entry is compared with the removed entry',
+              'heap delete does not compare the moved entry with the removed one')
+    ctx.check('R5', 'delete:sifts-up-when-smaller', len(ups) == 1 and d.uncut_path(ups[0], lambda a, fb: a.ls == cv_ and a.op == '<' and a.rc == 0) is None, ups[0] if ups else d,
+              'a moved entry that is smaller than the removed one is sifted up',
+              'heap delete never sifts the moved entry up: after deleting a pending timer the heap top need not be the earliest expiry (late wake-up, out-of-order dispatch)')
+    ctx.check('R5', 'delete:sifts-down-when-larger', len(downs) == 1 and d.uncut_path(downs[0], lambda a, fb: a.ls == cv_ and a.op == '>' and a.rc == 0) is None, downs[0] if downs else d,
+              'a moved entry that is larger than the removed one is sifted down', 'heap delete never sifts the moved entry down')
+    # both branches are reachable from the comparison (the repair really is two-sided)
+    for (nm, evs) in (('up', ups), ('down', downs)):
+        if evs and cmpst:
+            hits, _e, _n = d.search(('after', cmpst[0]), goal=lambda x, evs=evs: x is evs[0])
+            ctx.check('R5', 'delete:sift-%s-reachable' % nm, bool(hits), evs[0], 'sift %s is reachable after the comparison' % nm, 'sift %s is dead code' % nm)
+    a = prog.fn('timerlist_add')
+    su = list(a.calls('timerlist_heap_sift_up'))
+    sets = list(a.calls('timerlist_heap_entry_set'))
+    ctx.check('R5', 'add:append-then-sift-up', len(su) == 1 and bool(sets) and all(a.ev_dominates(s_, su[0]) for s_ in sets) and
+              estr(su[0].args[1]) == estr(sets[-1].args[1]), su[0] if su else a, 'a new timer is appended and sifted up', 'timerlist_add does not sift the new entry up')
+    def last_of_comma(e):
+        e = unwrap(e)
+        while isinstance(e, dict) and e.get('k') == 'bin' and e['op'] == ',':
+            e = unwrap(e['r'])
+        return e
+    u = prog.fn('timerlist_heap_sift_up')
+    conds = [b for b in u.blocks.values() if b.cond is not None and has_call(b.cond, 'timerlist_entry_cmp')]
+    ok = len(conds) == 1 and last_of_comma(conds[0].cond).get('k') == 'bin' and last_of_comma(conds[0].cond)['op'] == '>' and cval(unwrap(last_of_comma(conds[0].cond)['r'])) == 0
+    if ok:
+        cc = unwrap(last_of_comma(conds[0].cond)['l'])
+        ok = 'parent' in estr(cc['args'][0])
+    ctx.check('R5', 'sift-up:while-parent-larger', ok, u, 'sift up swaps while the parent is larger', 'sift up swaps on another condition')
+    dn = prog.fn('timerlist_heap_sift_down')
+    conds = [b for b in dn.blocks.values() if b.cond is not None and has_call(b.cond, 'timerlist_entry_cmp')]
+    ok = len(conds) == 2 and all(last_of_comma(b.cond).get('k') == 'bin' and last_of_comma(b.cond)['op'] == '<' and cval(unwrap(last_of_comma(b.cond)['r'])) == 0 for b in conds)
+    ctx.check('R5', 'sift-down:picks-smaller-child', ok, dn, 'sift down moves towards the smaller child (both children examined)', 'sift down does not examine both children for the smaller one')
